@@ -149,6 +149,12 @@ def replace (s old new : Str) : Str :=
 def allInRanges (rs : List (Nat × Nat)) (s : Str) : Bool :=
   s.all fun c => rs.any fun r => r.1 ≤ c.toNat && c.toNat ≤ r.2
 
+/-- `for c in s`: the one-character strings of `s` -/
+def chars (s : Str) : List Str := s.map fun c => [c]
+
+/-- `s * n` (empty for `n ≤ 0`) -/
+def repeatStr (s : Str) (n : Int) : Str := (List.replicate n.toNat s).flatten
+
 /-! ## sets of ints, unpacking -/
 
 /-- `a - b` on sets (the items of `a` not in `b`) -/
